@@ -81,3 +81,18 @@ Theorem tr_length3 : forall c p q, t_c c * t_c c + t_s c * t_s c == 1 -> t_k c =
   (pz3 (tr c p) - pz3 (tr c q)) * (pz3 (tr c p) - pz3 (tr c q)) ==
   (px3 p - px3 q) * (px3 p - px3 q) + (py3 p - py3 q) * (py3 p - py3 q) + (pz3 p - pz3 q) * (pz3 p - pz3 q).
 Proof. intros c p q H K. rewrite (tr_isometry c p q H), (tr_z c p q), K. ring. Qed.
+
+(* C01 / C02: how far the single-precision pipeline is from the exact map.  The difference is the (exact, linear)
+   rotation and flip of the rounding errors of the two float32 subtractions; each of those is bounded by
+   Base/RndProofs.rnd32_error. *)
+Definition in_err (x s : Q) : Q := rnd32 (rnd32 x - rnd32 s) - (x - s).
+
+Theorem tr32_minus_tr : forall c x y z,
+  let dx := in_err x (t_sx c) in let dy := in_err y (t_sy c) in
+  px3 (tr32 c (x, y, z)) - px3 (tr c (x, y, z)) == t_c c * (sgn (t_fx c) * dx) - t_s c * (sgn (t_fy c) * dy) /\
+  py3 (tr32 c (x, y, z)) - py3 (tr c (x, y, z)) == t_s c * (sgn (t_fx c) * dx) + t_c c * (sgn (t_fy c) * dy) /\
+  pz3 (tr32 c (x, y, z)) - pz3 (tr c (x, y, z)) == t_k c * (rnd32 z - z).
+Proof.
+  intros c x y z. cbv zeta. unfold in_err, tr32, tr, tr_gen, px3, py3, pz3. cbn [fst snd].
+  rewrite !flipq_sgn. repeat split; ring.
+Qed.
